@@ -151,7 +151,7 @@ func (c *Custom) UnmarshalFlag(v string) error {
 }
 
 func (c Custom) MarshalFlag() (string, error) {
-	return "m:" + string(c), nil
+	return strings.TrimPrefix(string(c), "u:"), nil
 }
 
 // Comp implements Completer (pointer receiver); otherwise a plain string.
